@@ -124,6 +124,20 @@ def cosim_task(ctx, prop, task, nsamples=2, seed=0, budget_s=120):
                 rep = {"status": "error", "error": "%s: %s" % (type(ex).__name__, ex)}
             out["samples"] += 1
             stt = rep.get("status")
+            if stt == "confirmed" and not rep.get("panic") and is_z3(v) and not out.get("canary_done"):
+                # vacuity guard for the comparison itself: the same sample with a deliberately wrong prediction of the result
+                # (one bit flipped) must be reported as a disagreement
+                out["canary_done"] = True
+                wrong = z3.Not(v) if z3.is_bool(v) else v ^ 1
+                ob2 = Oblig("cosim-canary:" + task.name, "ensures", z3.BoolVal(True), s, "", {"result": wrong})
+                ob2.world, ob2.pre, ob2.args, ob2.func, ob2.fvs = res.world, res.pre, res.args, f.short, ()
+                try:
+                    rep2 = replaymod.replay(ctx, prop, ob2, _Res(m))
+                except Exception as ex:
+                    rep2 = {"status": "error"}
+                out["canaries"] = out.get("canaries", 0) + 1
+                if rep2.get("status") == "engine-disagreement":
+                    out["canaries_caught"] = out.get("canaries_caught", 0) + 1
             if stt == "confirmed" and not rep.get("panic"):
                 out["agree"] += 1
             elif stt == "engine-disagreement" or rep.get("panic"):
